@@ -345,7 +345,7 @@ impl DynR {
 // dynamic writer compositions
 
 thread_local! {
-    /// F13 root cause seen in the current case: a `BufWriter::write*` call returned an error
+    /// F17 root cause seen in the current case: a `BufWriter::write*` call returned an error
     /// although it had taken bytes into its buffer
     static ERR_AFTER_BUFFERING: RefCell<Vec<String>> = const { RefCell::new(Vec::new()) };
 }
@@ -803,7 +803,7 @@ fn run_reader_op(op: &str, rspec: &str, dspec: &str) -> RdRun {
     }
 }
 
-fn f15_shape(members: &[Vec<u8>]) -> bool {
+fn f19_shape(members: &[Vec<u8>]) -> bool {
     // initialised parts do not form a prefix of the capacity-concatenation:
     // some member with spare capacity is followed by a member with content
     let mut spare_seen = false;
@@ -968,10 +968,10 @@ fn exec_vectored_read(w: &[&str], line: &str, ex: &mut Exec) -> String {
             (res, m, state, facts)
         })
     });
-    let nonprefix = f15_shape(&orig);
+    let nonprefix = f19_shape(&orig);
     match r {
         Err(m) => {
-            let sig = if nonprefix { "F15:vectored-nonprefix-init" } else { "C11:panic" };
+            let sig = if nonprefix { "F19:vectored-nonprefix-init" } else { "C11:panic" };
             ex.fail(sig, format!("{line} => panic: {m}"));
             ex.tag(format!("res:{op}:panic"));
             "panic".into()
@@ -998,7 +998,7 @@ fn exec_vectored_read(w: &[&str], line: &str, ex: &mut Exec) -> String {
                         if !left.is_empty() {
                             ex.fail("C11:vectored-ref", format!("{line}: {d} bytes arrived, more than the capacity"));
                         } else if want != m {
-                            let sig = if nonprefix { "F15:vectored-nonprefix-init" } else { "C11:vectored-ref" };
+                            let sig = if nonprefix { "F19:vectored-nonprefix-init" } else { "C11:vectored-ref" };
                             ex.fail(
                                 sig,
                                 format!("{line}: members {} but the reference is {}", show_members(&m), show_members(&want)),
@@ -1222,11 +1222,11 @@ fn run_wseq(wspec: &str, steps: &[String]) -> WrRun {
 }
 
 fn monitor_writer(line: &str, wspec: &str, run: &WrRun, ex: &mut Exec) {
-    let f13 = !run.err_after_buffering.is_empty();
-    if f13 {
-        ex.fail("F13:bufwriter-err-after-buffering", format!("{line}: {}", run.err_after_buffering[0]));
+    let f17 = !run.err_after_buffering.is_empty();
+    if f17 {
+        ex.fail("F17:bufwriter-err-after-buffering", format!("{line}: {}", run.err_after_buffering[0]));
     }
-    let sig = |s: &'static str| if f13 { "F13:bufwriter-err-after-buffering" } else { s };
+    let sig = |s: &'static str| if f17 { "F17:bufwriter-err-after-buffering" } else { s };
     if run.state == "dead" {
         ex.fail("C11:panic", format!("{line}: writer panicked"));
         return;
@@ -1296,10 +1296,10 @@ fn exec_writer_line(w: &[&str], line: &str, ex: &mut Exec) -> String {
         && steps.iter().all(|s| s.starts_with('a') || s.starts_with('x'))
     {
         let run2 = run_wseq(&strip_intr(wspec), &steps);
-        let f13 = !run.err_after_buffering.is_empty() || !run2.err_after_buffering.is_empty();
+        let f17 = !run.err_after_buffering.is_empty() || !run2.err_after_buffering.is_empty();
         if run2.outs != run.outs || blur_script_left(&run2.state) != blur_script_left(&run.state) {
             ex.fail(
-                if f13 { "F13:bufwriter-err-after-buffering" } else { "C11:intr-transparent" },
+                if f17 { "F17:bufwriter-err-after-buffering" } else { "C11:intr-transparent" },
                 format!(
                     "{line}: {} | {} but without the Interrupted entries {} | {}",
                     run.outs.join(" "),
@@ -1347,14 +1347,14 @@ fn exec_copy(w: &[&str], line: &str, ex: &mut Exec) -> String {
             "panic".into()
         }
         Ok((res, rs, ws, rf, wf)) => {
-            let f13 = ERR_AFTER_BUFFERING.with(|v| !v.borrow().is_empty());
-            if f13 {
+            let f17 = ERR_AFTER_BUFFERING.with(|v| !v.borrow().is_empty());
+            if f17 {
                 ex.fail(
-                    "F13:bufwriter-err-after-buffering",
+                    "F17:bufwriter-err-after-buffering",
                     format!("{line}: {}", ERR_AFTER_BUFFERING.with(|v| v.borrow()[0].clone())),
                 );
             }
-            let sig = |s: &'static str| if f13 { "F13:bufwriter-err-after-buffering" } else { s };
+            let sig = |s: &'static str| if f17 { "F17:bufwriter-err-after-buffering" } else { s };
             ex.tag(format!("res:cp:{}", res.split(':').next().unwrap()));
             if let (Some(info), Some(got)) = (script_info(rspec), wf.got.as_ref()) {
                 let init: Vec<u8> =
@@ -1379,7 +1379,7 @@ fn exec_copy(w: &[&str], line: &str, ex: &mut Exec) -> String {
                     let avail = lim.map_or(info.stream.len() as u64, |l| l.min(info.stream.len() as u64));
                     if info.honest && n as u64 != avail {
                         let s = if size == 0 {
-                            "F14:copy-size0-eof"
+                            "F18:copy-size0-eof"
                         } else if bcap == Some(0) {
                             "F12:bufreader-cap0-eof"
                         } else {
@@ -1401,13 +1401,13 @@ fn exec_copy(w: &[&str], line: &str, ex: &mut Exec) -> String {
                 let wi = base_of(wspec).starts_with("s:") && base_of(wspec).split(':').nth(1).unwrap().split(',').any(|e| e == "i");
                 if info.has_intr || wi {
                     if let Ok((res2, rs2, ws2, ..)) = run(&strip_intr(rspec), &strip_intr(wspec)) {
-                        let f13b = ERR_AFTER_BUFFERING.with(|v| !v.borrow().is_empty());
+                        let f17b = ERR_AFTER_BUFFERING.with(|v| !v.borrow().is_empty());
                         if res2 != res || blur_script_left(&rs2) != blur_script_left(&rs) || blur_script_left(&ws2) != blur_script_left(&ws) {
                             ex.fail(
-                                if f13b {
-                                    "F13:bufwriter-err-after-buffering"
+                                if f17b {
+                                    "F17:bufwriter-err-after-buffering"
                                 } else if res == "intr" {
-                                    "F16:copy-flush-interrupted"
+                                    "F20:copy-flush-interrupted"
                                 } else {
                                     "C11:intr-transparent"
                                 },
@@ -1438,7 +1438,14 @@ fn exec(case: &Case) -> Exec {
     let mut ex = Exec::new();
     for line in &case.lines {
         let nt = ex.nontrivial;
-        let o = exec_line(line, &mut ex);
+        // a panic that escapes the per-call `catch` is a bug of this harness: name the line
+        let o = match catch(|| exec_line(line, &mut ex)) {
+            Ok(o) => o,
+            Err(m) => {
+                eprintln!("harness bug on `{line}`: {m}");
+                std::process::exit(3);
+            }
+        };
         ex.nontrivial |= nt;
         ex.out.push(o);
     }
